@@ -166,8 +166,10 @@ def main():
     P = [r for r in results if r.ob.tier == 'P']
     B = [r for r in results if r.ob.tier == 'B']
     S = [r for r in results if r.ob.tier == 'S']
-    n_obl = sum(r.props for r in P) + len(S)
-    n_dis = sum(r.props - len(r.failed) for r in P if r.status in ('pass', 'fail')) + sum(1 for r in S if r.status == 'pass')
+    # an obligation for which CBMC generated no assertion at all (bound proofs: an unwinding assertion exists only for a loop that
+    # can reach the bound) counts as ONE obligation: "verification successful under the stated unwinding bound"
+    n_obl = sum(max(r.props, 1) for r in P) + len(S)
+    n_dis = sum((r.props - len(r.failed)) if r.props else (1 if r.status == 'pass' else 0) for r in P if r.status in ('pass', 'fail')) + sum(1 for r in S if r.status == 'pass')
     funcs = {}
     for r in results:
         for f in r.ob.functions:
